@@ -407,7 +407,6 @@ func c02r4(c *Ctx) {
 	}
 }
 
-
 // c02r6 / c02r7: clauses of the statement that sibling properties decide, claimed here as well so that C02 stands on its
 // own: a credit raises the balance by exactly the amount only if the existing holding is added (C01-R1), and "creates under a
 // fresh nonce / lowers the caller's balance" presupposes that (token, nonce) determines the storage key (C05-R3 key layout).
